@@ -186,6 +186,17 @@ class Cmp:
                 a, b = e['obj'], e['args'][0]
             else:
                 a, b = e['args'][0], e['args'][1]
+        if op is None and k == 'call' and e.get('callee_lambda_id') and len(e.get('args', [])) == 2 and self.facts is not None:
+            # a local lambda used as "less" over one field of both operands: auto lt = [](const std::string &a, const std::string &b) { .. tolower .. }
+            pa, pb = param_field(e['args'][0], self.params, self.env), param_field(e['args'][1], self.params, self.env)
+            lams = [h for h in self.facts.functions if h.get('kind') == 'lambda' and h.get('body') is not None and (h.get('parent') or '').startswith(self.f['q'])]
+            if pa is not None and pb is not None and pa[1] and pa[1] == pb[1] and pa[0] != pb[0] and lams:
+                lossy = sorted(set((x.get('callee') or '').split('::')[-1] for h in lams for x in walk_all_exprs(h['body'])
+                                   if x.get('k') == 'call' and (x.get('callee') or '').split('::')[-1] in LOSSY_CALLS))
+                if lossy:
+                    raise Lossy('field %s is ordered by a local lambda that compares through %s: two keys that differ only in what %s removes are equivalent '
+                                '(e.g. "Lib.theo" and "lib.theo")' % (pa[1], '/'.join(lossy), '/'.join(lossy)))
+                raise Unsupported('field %s is ordered by a local lambda' % pa[1])
         if op is None and k == 'call' and e.get('obj') is None and e.get('ck') != 'operator' and e.get('callee_in_repo') and len(e.get('args', [])) == 2 and \
                 self.facts is not None:
             # a hand-written "less" over one field of both operands: less_nocase(a.file, b.file)
